@@ -26,6 +26,10 @@ def chain_calls(n, h=None):
             for i in range(len(h.get("params", []))):
                 if is_param(x, h, i):
                     return "param#%d" % i
+            nm = local_name(x)
+            ini = let_init(h["body"], nm) if nm else None
+            if ini is not None and strip(ini).get("k") in ("Call", "MethodCall"):
+                return "call:" + last_seg(norm(strip(ini).get("callee", "")))
         return local_name(x)
     out = []
     for c in ch:
@@ -82,11 +86,13 @@ def rule_regexcfg(E, R):
             S = sem.Sem(E, hn_)
             for x in S.sites():
                 if x.node.get("k") == "MethodCall" and x.node["m"] in ("nfa_size_limit", "hybrid_cache_capacity") and x.node.get("args"):
-                    a_ = sem.peel(x.node["args"][0])
+                    rv_ = S.resolve(x.node["args"][0], x.frame)
+                    a_, fr_ = sem.peel(rv_.node), rv_.frame
                     if a_.get("k") == "Call" and norm(a_.get("callee", "")) == "core::option::Option::Some":
-                        a_ = sem.peel(a_["args"][0])
-                    v_ = strip(S.resolve(a_, x.frame).node)
-                    if v_.get("k") == "Field" and sem.param_index(S, v_["e"], S.resolve(a_, x.frame).frame) == 2:
+                        rv_ = S.resolve(a_["args"][0], fr_)
+                        a_, fr_ = sem.peel(rv_.node), rv_.frame
+                    v_ = strip(a_)
+                    if v_.get("k") == "Field" and sem.param_index(S, v_["e"], fr_) == 2:
                         lim[x.node["m"]] = v_["name"]
         R.check(lim.get("nfa_size_limit") == "regex_compiled_size_limit", rule, RX + "::meta_config",
                 "compiled-size limit is the parser's regex_compiled_size_limit", str(lim), hm["span"])
@@ -149,20 +155,26 @@ def rule_regexcfg(E, R):
         else:
             # the only rewrite: backslash dropped before a quote outside a class
             ok = False
-            for i in exprs(h["body"], "If"):
-                c = strip(i["cond"])
-                flags = set()
-                for st_ in exprs(h["body"], "SLet"):
-                    if st_["pat"].get("k") == "PBinding" and norm(st_["pat"].get("ty", "")) == "bool" and "init" in st_ and is_lit(st_["init"], False):
-                        nm_ = st_["pat"]["name"]
-                        sets = [a_ for a_ in exprs(h["body"], "Assign") if local_name(a_["l"]) == nm_]
-                        if sets:
-                            flags.add(nm_)
-                if c.get("k") == "Binary" and c["op"] == "Or" and local_name(c["l"]) in flags:
-                    r = strip(c["r"])
-                    if r.get("k") == "Binary" and r["op"] == "Ne" and lit_value(r["r"]) == '"':
-                        pushes = [lit_value(x["args"][0]) for x in exprs(i["then"], "MethodCall") if x["m"] == "push"]
-                        ok = pushes == ["\\"]
+            # the scanning loop may live in a private helper of the same file
+            import sem
+            Sl = sem.Sem(E, h)
+            Sl.sites()
+            bodies = [h] + [E.hir(p_) for p_, _ in Sl.inlined if E.hir(p_) is not None]
+            for hb_ in bodies:
+                for i in exprs(hb_["body"], "If"):
+                    c = strip(i["cond"])
+                    flags = set()
+                    for st_ in exprs(hb_["body"], "SLet"):
+                        if st_["pat"].get("k") == "PBinding" and norm(st_["pat"].get("ty", "")) == "bool" and "init" in st_ and is_lit(st_["init"], False):
+                            nm_ = st_["pat"]["name"]
+                            sets = [a_ for a_ in exprs(hb_["body"], "Assign") if local_name(a_["l"]) == nm_]
+                            if sets:
+                                flags.add(nm_)
+                    if c.get("k") == "Binary" and c["op"] == "Or" and local_name(c["l"]) in flags:
+                        r = strip(c["r"])
+                        if r.get("k") == "Binary" and r["op"] == "Ne" and lit_value(r["r"]) == '"':
+                            pushes = [lit_value(x["args"][0]) for x in exprs(i["then"], "MethodCall") if x["m"] == "push"]
+                            ok = ok or pushes == ["\\"]
             R.check(ok, rule, fn, "the backslash of an escape is kept unless it escapes a quote outside a character class", where=h["span"])
 
 
@@ -193,39 +205,35 @@ def rule_wildcfg(E, R):
         R.check(ok, rule, WC + "::is_match", "whole-value match (wildcard::Wildcard::is_match) over the raw bytes", where=hi["span"])
     # validate dominates construction
     lit = [s for s in exprs(hn["body"], "Struct") if norm(s["res"].get("path", "")) == WC]
-    for s in lit:
-        pre = preceding_stmts(hn["body"], s) or []
-        val = False
-        for st in pre:
-            for m in exprs(st, "Match", into_closures=False):
-                if str(m.get("src", "")).startswith("TryDesugar"):
-                    sc = strip(m["scrut"])
-                    inner = strip(sc["args"][0]) if sc.get("args") else {}
-                    if norm(inner.get("callee", "")) == "rhs_types::wildcard::validate_wildcard":
-                        val = is_param(inner["args"][1], hn, 1)
-        R.check(val, "R11-validate", WC + "::new", "validate_wildcard(..)? precedes construction", where=s["sp"])
-    hv = E.hir("rhs_types::wildcard::validate_wildcard")
-    if hv:
-        gt = False
-        ds = False
-        for i in exprs(hv["body"], "If"):
-            c = strip(i["cond"])
-            counts = {s_["pat"]["name"] for s_ in exprs(hv["body"], "SLet") if s_["pat"].get("k") == "PBinding" and
-                      strip(s_.get("init", {})).get("m") == "metasymbol_count"}
-            if c.get("k") == "Binary" and local_name(c["l"]) in counts and is_param(c["r"], hv, 1):
-                gt = c["op"] == "Gt" and bool(explicit_err_returns(i["then"]))
-                if c["op"] != "Gt":
-                    R.violation("R11-validate", norm(hv["path"]), "star limit test is `count > limit`",
-                                "found `%s`: a pattern with exactly `limit` stars must be accepted" % c["op"], c.get("sp", ""))
-            if c.get("k") == "Call" and norm(c.get("callee", "")) == "rhs_types::wildcard::has_double_star":
-                ds = bool(explicit_err_returns(i["then"]))
-        R.check(gt, "R11-validate", norm(hv["path"]), "more stars than the limit is rejected", where=hv["span"])
-        R.check(ds, "R11-validate", norm(hv["path"]), "`**` is rejected", where=hv["span"])
-        sc = any(s["pat"].get("k") == "PBinding" and strip(s.get("init", {})).get("m") == "metasymbol_count" and
-                 is_param(strip(s["init"])["recv"], hv, 0) for s in exprs(hv["body"], "SLet"))
-        R.check(sc, "R11-validate", norm(hv["path"]), "stars are counted by the engine's metasymbol count", where=hv["span"])
-    else:
-        R.cannot("R11-validate", "validate_wildcard", "anchor not found")
+    # the Wildcard value is built only where the pattern passed validation - whether the checks live in `validate_wildcard`
+    # (analysed inlined into `new`) or in `new` itself
+    import sem
+    Sw = sem.Sem(E, hn)
+    sites_ = [x for x in Sw.sites() if x.node.get("k") == "Struct" and norm(x.node["res"].get("path", "")) == WC]
+    R.check(len(sites_) >= 1, "R11-validate", WC + "::new", "validate_wildcard(..)? precedes construction", "no construction site found", hn["span"])
+    for x in sites_:
+        limit_ok = None
+        for op, l, r, fr, certain in sem.weak_cmps(x.pc):
+            ln, rn = Sw.resolve(l, fr), Sw.resolve(r, fr)
+            if sem.is_method(ln.node, "metasymbol_count") is not None and sem.param_index(Sw, r, fr) == 1:
+                limit_ok = (op, "count,limit", certain)
+            elif sem.is_method(rn.node, "metasymbol_count") is not None and sem.param_index(Sw, l, fr) == 1:
+                limit_ok = (op, "limit,count", certain)
+        good = limit_ok in (("Le", "count,limit", True), ("Lt", "limit,count", False))   # count <= limit
+        if limit_ok and not good and limit_ok[2]:
+            R.violation("R11-validate", WC + "::new", "star limit test is `count > limit`",
+                        "the value is built where `%s` holds for (%s): a pattern with exactly `limit` stars must be accepted, one more rejected" % limit_ok[:2],
+                        x.node["sp"])
+        R.check(limit_ok == ("Le", "count,limit", True), "R11-validate", WC + "::new", "more stars than the limit is rejected",
+                "found %s" % (limit_ok,), x.node["sp"])
+        ds = any(a_.kind == "call" and not pol and norm(sem.peel(a_.node).get("callee", "")) == "rhs_types::wildcard::has_double_star"
+                 for a_, pol in sem.literals(x.pc)[0])
+        R.check(ds, "R11-validate", WC + "::new", "`**` is rejected", where=x.node["sp"])
+        counted = [y for y in Sw.sites() if y.node.get("k") == "MethodCall" and y.node["m"] == "metasymbol_count"]
+        built = [y for y in Sw.sites() if y.node.get("k") == "MethodCall" and y.node["m"] == "build" and "wildcard::" in norm(y.node.get("callee", ""))]
+        same = bool(counted) and bool(built) and all(sem.passes_through(Sw, y.node["recv"], y.frame, built[0].node) for y in counted)
+        R.check(same, "R11-validate", WC + "::new", "stars are counted by the engine's metasymbol count", where=x.node["sp"])
+        R.check(limit_ok is not None and ds, "R11-validate", WC + "::new", "validate_wildcard(..)? precedes construction", where=x.node["sp"])
     hl = E.hirs(r"^<rhs_types::wildcard::Wildcard<STRICT> as lex::LexWith<&ast::parse::FilterParser>>::lex_with$")
     if len(hl) == 1:
         nw = [c for c in exprs(hl[0]["body"], "Call") if norm(c.get("callee", "")) == WC + "::new"]
